@@ -462,6 +462,25 @@ func derivesFrom(v ssa.Value, pred func(ssa.Value) bool, throughCalls bool) bool
 					return true
 				}
 			}
+			// element / field stores into the local
+			if refs := x.Referrers(); refs != nil {
+				for _, r := range *refs {
+					switch y := r.(type) {
+					case *ssa.IndexAddr:
+						for _, st := range storesTo(y) {
+							if rec(st.Val, d+1) {
+								return true
+							}
+						}
+					case *ssa.FieldAddr:
+						for _, st := range storesTo(y) {
+							if rec(st.Val, d+1) {
+								return true
+							}
+						}
+					}
+				}
+			}
 		case *ssa.FieldAddr:
 			return rec(x.X, d+1)
 		case *ssa.Field:
